@@ -120,10 +120,10 @@ Proof.
   - destruct (wc_end L_pct_rbrace (rest s (pos t1))) as [[w m]|] eqn:E.
     + inversion H; subst t' tok fin. st_simpl.
       pose proof (wc_end_len _ _ _ _ E) as Hm. simpl in Hm. rewrite rest_len in Hm.
-      exists (pos t1 + m), (rev rexpr). rewrite A4. repeat split; try lia.
-      * eapply chain_hi; [apply rchain_rev; exact Hr1|lia].
+      exists (pos t1), (rev rexpr). rewrite A4. repeat split; try lia.
+      * apply rchain_rev; exact Hr1.
       * intros _ _. apply (wc_end_slice _ _ _ _ E).
-    + destruct (peek_at s (pos t1)); discriminate.
+    + discriminate.
 Qed.
 
 Lemma liquid_block_comment_text : forall f t depth t' tok,
@@ -202,7 +202,7 @@ Proof.
   destruct (negb (tag_name_len (rest s (pos t1)) =? 0)) eqn:En.
   { apply negb_true_iff, Nat.eqb_neq in En.
     set (n := tag_name_len (rest s (pos t1))) in *.
-    set (t2 := set_lstart (set_both t1 (pos t1 + n)) (start t1)) in *.
+    set (t2 := set_in_range (set_lstart (set_both t1 (pos t1 + n)) (start t1)) false) in *.
     assert (Hs2 : sane s t2) by (subst t2; unfold sane; st_simpl; lia).
     assert (Hname : firstn n (rest s (pos t1)) = firstn (length (firstn n (rest s (pos t1)))) (skipn (pos t1) s)).
     { rewrite firstn_length, rest_len, Nat.min_l by lia. reflexivity. }
@@ -327,7 +327,7 @@ Proof.
     apply match_output_first in Hinv. rewrite firstn_rest in Hinv.
     apply bind_ok in H as ([[t2 w1] expr] & Hc & H).
     pose proof (rspec_inv s _ _ _ _ _ (expression_until_spec shorthand s f L_rbrace2
-                  (set_both (set_mstart t (start t)) (pos t + n))
+                  (set_in_range (set_both (set_mstart t (start t)) (pos t + n)) false)
                   ltac:(unfold sane; st_simpl; lia) ltac:(simpl; lia)) Hc) as (C1 & C2 & C3 & C4).
     st_simpl. simpl in C1.
     eapply (expression_until_text _ _ _ _ _ _ (Z.of_nat (pos t + 2))) in Hc;
@@ -339,7 +339,7 @@ Proof.
     apply match_tag_first in Hinv as (Hfirst & Hoff). rewrite firstn_rest in Hfirst.
     destruct (str_eqb _ L_liquid).
     + apply bind_ok in H as ([t2 tok] & Hc & H).
-      set (t1 := set_both (set_mstart t (start t)) (pos t + noff + nlen)) in *.
+      set (t1 := set_in_range (set_both (set_mstart t (start t)) (pos t + noff + nlen)) false) in *.
       assert (Hs1 : sane s t1) by (subst t1; unfold sane; st_simpl; lia).
       pose proof (rspec_inv s _ _ _ _ _ (liquid_tag_spec shorthand s f t1 w0 [] [] Hs1) Hc)
         as (C1 & C2 & C3 & C4 & C5).
@@ -349,7 +349,7 @@ Proof.
       simpl. subst t1. st_simpl. rewrite S1. repeat split; assumption.
     + apply bind_ok in H as ([[t2 w1] expr] & Hc & H).
       pose proof (rspec_inv s _ _ _ _ _ (expression_until_spec shorthand s f L_pct_rbrace
-                    (set_both (set_mstart t (start t)) (pos t + noff + nlen))
+                    (set_in_range (set_both (set_mstart t (start t)) (pos t + noff + nlen)) false)
                     ltac:(unfold sane; st_simpl; lia) ltac:(simpl; lia)) Hc) as (C1 & C2 & C3 & C4).
       st_simpl. simpl in C1.
       eapply (expression_until_text _ _ _ _ _ _ (Z.of_nat (pos t + noff + nlen))) in Hc;
